@@ -202,18 +202,32 @@ def camb_user_params(quick):
     with warnings.catch_warnings():
         warnings.simplefilter("ignore")
         np.seterr(all="ignore")
-        for how in ("deepcopy", "clone") if quick else ("deepcopy", "clone", "pickle"):
+        for how, (hp_, kpl_) in [(h_, s_) for h_ in (("deepcopy", "clone") if quick else ("deepcopy", "clone", "pickle")) for s_ in ((False, 0), (True, 8))][: (3 if quick else 6)]:
             def mk():
                 cp = camb.CAMBparams(DoLensing=False, Want_CMB=False, Want_CMB_lensing=False, WantCls=False, WantDerivedParameters=False)
-                cp.Transfer.high_precision = False
-                cp.Transfer.k_per_logint = 0
+                cp.Transfer.high_precision = hp_          # (the second setting differs from what the model would choose itself)
+                cp.Transfer.k_per_logint = kpl_
                 return cp
             base = dict(transfer_model="CAMB", lnk_min=-10.0, lnk_max=5.0, dlnk=0.25)
             o = Transfer(transfer_params={"camb_params": mk()}, **base)
             p0 = o.power.copy()
             c = copy.deepcopy(o) if how == "deepcopy" else (o.clone() if how == "clone" else pickle.loads(pickle.dumps(o)))
+            # the copied *component* has to run again without being rebuilt: change only the wavenumber grid on a second copy
+            c3 = copy.deepcopy(o) if how == "deepcopy" else (o.clone() if how == "clone" else pickle.loads(pickle.dumps(o)))
+            c3.update(lnk_max=4.0)
+            pc3 = c3.power
+            fc3 = Transfer(transfer_params={"camb_params": mk()}, **dict(base, lnk_max=4.0)).power
+            if not (pc3.shape == fc3.shape and np.allclose(pc3, fc3, rtol=1e-9, atol=0)):
+                viol.append({"key": f"Transfer/CAMB-user-params/{how}/copy-grid-change-only", "what": f"{how} of a CAMB transfer with user CAMBparams (high_precision={hp_}, k_per_logint={kpl_}) after power was read, then update(lnk_max=4) on the copy: power differs from a fresh object's by up to {float(np.max(np.abs(pc3 / fc3 - 1))) if pc3.shape == fc3.shape else 'shape'}",
+                             "replay": {"kind": "c15", "script": [f"o = Transfer(transfer_model='CAMB', transfer_params={{'camb_params': CAMBparams(Transfer.high_precision={hp_}, Transfer.k_per_logint={kpl_})}}); o.power", f"c = {how}(o); c.update(lnk_max=4.0); c.power"]}})
             c.update(cosmo_params={"Om0": 0.25})
             pc = c.power
+            c.update(lnk_max=4.0)
+            pc2 = c.power
+            fc2 = Transfer(transfer_params={"camb_params": mk()}, cosmo_params={"Om0": 0.25}, **dict(base, lnk_max=4.0)).power
+            if not (pc2.shape == fc2.shape and np.allclose(pc2, fc2, rtol=1e-9, atol=0)):
+                viol.append({"key": f"Transfer/CAMB-user-params/{how}/copy-after-grid-change", "what": f"{how} of a CAMB transfer with user CAMBparams (high_precision={hp_}, k_per_logint={kpl_}), then update(lnk_max=4) on the copy: power differs from a fresh object's by up to {float(np.max(np.abs(pc2 / fc2 - 1))) if pc2.shape == fc2.shape else 'shape'}",
+                             "replay": {"kind": "c15", "script": [f"o = Transfer(transfer_model='CAMB', transfer_params={{'camb_params': CAMBparams(Transfer.high_precision={hp_}, Transfer.k_per_logint={kpl_})}}); o.power", f"c = {how}(o); c.update(cosmo_params={{'Om0':0.25}}); c.update(lnk_max=4.0); c.power"]}})
             o.update(dlnk=0.2)
             po = o.power
             n += 1
